@@ -138,6 +138,18 @@ def eval_api_properties(prop, ctx, records, limit):
                     report("captures_from_pos(t,%d).get(0) = find_from_pos(t,%d)" % (b, b), [f, c], "equal")
             if [x[1:3] if x[0] == "ok" else x for x in fi] != [x[1:3] if x[0] == "ok" else x for x in ci]:
                 report("captures_iter spans = find_iter spans", d["caps_iter"], d["find_iter"])
+        if prop == "C16":
+            m = dict(x.split("=", 1) for x in d["meta"].split(";"))
+            ng = sum(1 for tk in info["impl"]["tree"].split(" ") if tk == "G")
+            if int(m["len"]) != ng + 1 or int(m["n"]) != ng + 1:
+                report("captures_len / capture_names count = 1 + groups", d["meta"], str(ng + 1))
+            if m["names"] != info["impl"]["names"]:
+                report("capture_names at the parser's group indices", m["names"], info["impl"]["names"])
+            for k, v in d.items():
+                if "INCONSISTENT" in v:
+                    report("Captures accessors (len/iter/get/name/get(0)/oob)", v, "consistent")
+                if k.startswith("caps:") and v not in ("none",) and not v.startswith("ERR") and "INCONS" not in v and len(v.split(",")) != ng + 1:
+                    report("Captures::len = captures_len", v, str(ng + 1))
         if prop == "C10":
             want = pieces_between(fi, tlen)
             got = [] if d["split"] == "-" else d["split"].split(";")
